@@ -2,6 +2,7 @@
 point (DESIGN §6 C08).  Three arms: schedules, crash points of a pack,
 failing operations of a pack."""
 
+import os
 import random
 
 from persistent.TimeStamp import TimeStamp
@@ -78,10 +79,42 @@ def gen_idxrace(r, tier):
             'tier': tier, 'prefill': r.randint(1, 2), 'idxrace': True}
 
 
+def gen_poolrace(r, tier):
+    """Line-level pre-emption inside the synchronisation code that keeps
+    readers away from the pack's file swap (the pool of read handles):
+    readers, a writer and repeated packs."""
+    from .. import seams
+    ncell = r.choice((2, 3))
+    scripts = []
+    for i in range(r.choice((2, 3))):
+        scripts.append(mvcc.gen_script(r, ncell, r.randint(3, 7),
+                                       write_p=0.5 if i == 0 else 0.15,
+                                       misc_p=0.25))
+    sch = mvcc.sched_config(r)
+    sch['fine'] = {'p': r.choice((0.2, 0.5)),
+                   'prefix': seams.repo_src()
+                   + '/ZODB/FileStorage/FileStorage.py',
+                   'qual': 'FilePool.'}
+    return {'arm': 'sched', 'kind': 'file', 'ncell': ncell,
+            'scripts': scripts,
+            'packers': [{'delay': r.randrange(0, 80),
+                         'dt': r.choice((0.0, 5.0))}
+                        for _ in range(r.choice((1, 2, 3)))],
+            'st_opts': {'pack_keep_old': r.random() < 0.5},
+            'explicit': [False] * len(scripts),
+            'cache_size': r.choice((0, 400)),
+            'pool_size': 7, 'bufsize': r.choice((512, 8192)),
+            'classes': ['Cell'] * ncell, 'sched': sch, 'tick': 0.37,
+            'tier': tier, 'prefill': r.randint(1, 3), 'poolrace': True}
+
+
 def gen(seed, tier):
     r = random.Random(seed)
-    if r.random() < 0.06:
+    x0 = r.random()
+    if x0 < 0.06:
         return gen_idxrace(r, tier)
+    if x0 < 0.14 or os.environ.get('ZSIM_C08_POOL_ONLY'):
+        return gen_poolrace(r, tier)
     arm = r.choice(('sched', 'sched', 'crash', 'fail'))
     if arm == 'fail':
         ops = G.gen_history(ctx.subseed(seed, 'h'), 'file',
